@@ -801,6 +801,36 @@ func (it *k4interp) eval1(fr *k4frame, v ssa.Value) (k4val, error) {
 	case *ssa.Call:
 		if b, ok := x.Call.Value.(*ssa.Builtin); ok {
 			switch b.Name() {
+			case "append":
+				dst, err := it.eval(fr, x.Call.Args[0])
+				if err != nil {
+					return dst, err
+				}
+				src, err := it.eval(fr, x.Call.Args[1])
+				if err != nil {
+					return src, err
+				}
+				if (dst.kind == 8 || dst.s == "nil") && src.kind == 8 {
+					it.frameID++
+					base := fmt.Sprintf("M%d", it.frameID)
+					n := 0
+					cp := func(sv k4val) {
+						for i := 0; i < sv.ln; i++ {
+							if v, ok := it.mem[fmt.Sprintf("%s[%d]", sv.s, sv.off+i)]; ok {
+								it.mem[fmt.Sprintf("%s[%d]", base, n)] = v
+							} else {
+								it.mem[fmt.Sprintf("%s[%d]", base, n)] = k4val{kind: 3, s: fmt.Sprintf("%s[%d]", sv.s, sv.off+i)}
+							}
+							n++
+						}
+					}
+					if dst.kind == 8 {
+						cp(dst)
+					}
+					cp(src)
+					return k4val{kind: 8, s: base, ln: n, cp: n}, nil
+				}
+				return k4val{}, fmt.Errorf("append on unmodelled slices")
 			case "len":
 				if sl, ok := x.Call.Args[0].(*ssa.Slice); ok && sl.Low == nil && sl.High == nil {
 					if pt, ok := sl.X.Type().Underlying().(*types.Pointer); ok {
